@@ -448,3 +448,62 @@ func checkValidatorPresenceOnly(c *core.Ctx, rule string) {
 	c.Check(bad == "" && n > 0, rule, "DefaultValidator.Do", "the validator tests the presence of required fields and computes nothing from the message", do.Pos(), "accessors and IsNull only",
 		bad+": the re-computed length or image of the parsed message leaves out what the template does not know (trailer fields, user-defined tags), so a valid message that carries them is refused after it has passed the integrity check")
 }
+
+// checkTableKeysAgree: the writer and the readers of a lookup table of the Generator agree on how the key is spelled. If the key
+// of a map update is normalised (strings.ToUpper, TrimSpace, …), every lookup in that table applies the same normalisation;
+// otherwise an entry stored as "YESNO" is never found under the schema's "YesNo" and the field silently gets the default type.
+func checkTableKeysAgree(c *core.Ctx, rule string, gen *ssa.Package) {
+	chain := func(v ssa.Value) string {
+		out := ""
+		for i := 0; i < 6; i++ {
+			call, ok := v.(*ssa.Call)
+			if !ok {
+				break
+			}
+			cal := an.StaticCallee(&call.Call)
+			if cal == nil || cal.Pkg == nil || cal.Pkg.Pkg.Path() != "strings" || len(call.Call.Args) == 0 {
+				break
+			}
+			out += an.NameOf(cal) + "∘"
+			v = call.Call.Args[0]
+		}
+		return out
+	}
+	type use struct {
+		in  ssa.Instruction
+		fn  *ssa.Function
+		key string
+	}
+	writes, reads := map[*types.Var][]use{}, map[*types.Var][]use{}
+	for _, fn := range an.PkgFuncs(gen) {
+		an.AllInstrs(fn, func(in ssa.Instruction) {
+			switch x := in.(type) {
+			case *ssa.MapUpdate:
+				if f, _ := an.LoadedField(x.Map); f != nil {
+					writes[f] = append(writes[f], use{in, fn, chain(x.Key)})
+				}
+			case *ssa.Lookup:
+				if f, _ := an.LoadedField(x.X); f != nil {
+					if _, isMap := x.X.Type().Underlying().(*types.Map); isMap {
+						reads[f] = append(reads[f], use{in, fn, chain(x.Index)})
+					}
+				}
+			}
+		})
+	}
+	n := 0
+	for f, ws := range writes {
+		for _, w := range ws {
+			n++
+			bad := ""
+			for _, r := range reads[f] {
+				if r.key != w.key {
+					bad = fmt.Sprintf("%s stores under %skey, %s looks up under %skey", an.NameOf(w.fn), w.key, an.NameOf(r.fn), r.key)
+				}
+			}
+			c.Check(bad == "", rule, an.NameOf(w.fn)+"→"+f.Name(), "the table's writer and readers spell the key the same way", w.in.Pos(), "same normalisation (or none) on both sides",
+				"table "+f.Name()+": "+bad+": an entry whose name differs from the schema's spelling only by what the writer normalises away is never found, and the field silently falls back to the default mapping")
+		}
+	}
+	c.Check(n >= 3, rule, "", "table updates of the Generator found", token.NoPos, fmt.Sprint(n), fmt.Sprintf("only %d map updates into Generator fields found", n))
+}
